@@ -508,9 +508,11 @@ Qed.
 Lemma wf_sorted I : wf I -> sorted_reads I.
 Proof. by rewrite /wf /wf_reads => /andP[/andP[/andP[-> _] _] _]. Qed.
 
-Theorem dp_cost_optimal I : wf I -> no_conflict I -> dp_cost I = Cost (opt_spec I).
+Lemma dp_cost_optimal_gen I :
+  sorted_reads I -> (forall i, i < nreads I -> r_last (rd I i) < i_ncols I) -> no_conflict I ->
+  dp_cost I = Cost (opt_spec I).
 Proof.
-move=> hwf hnc; have Hs := wf_sorted hwf; have Hl := wf_last hwf.
+move=> Hs Hl hnc.
 case: (posnP (i_ncols I)) => [h0|hpos].
   rewrite /dp_cost /opt_spec /cost_of h0 /=; congr Cost.
   rewrite (@ominl_const0 _ (bvs (nreads I))) //.
@@ -520,6 +522,9 @@ rewrite dp_cost_total // dp_total_spec -take_cols.
 case: (St_shape Hs (leqnn (i_ncols I))) => -> _; rewrite seen_last //.
 by congr Cost; apply: total_expand.
 Qed.
+
+Theorem dp_cost_optimal I : wf I -> no_conflict I -> dp_cost I = Cost (opt_spec I).
+Proof. by move=> hwf; apply: dp_cost_optimal_gen; [exact: wf_sorted | exact: wf_last]. Qed.
 
 (* ------------------------------------------------------------------ alleles_non_tie_forced *)
 Lemma ole_anti x y : ole x y -> ole y x -> x = y.
